@@ -21,6 +21,8 @@ def var(name, lo, hi):
     n=N('v', (name,), lo, hi)
     v=z3.BitVec(name, n.w)
     DOMAIN.append(z3.And(v>=lo, v<=hi))
+    import core as _c
+    if _c.Ctx.cur is not None: _c.Ctx.cur.solver.add(DOMAIN[-1])
     return n
 
 def _corners(f, a, b):
